@@ -122,9 +122,9 @@ Section Rejected.
   Variable p : policy M U R.
   Variable elem : bytes.
   Variable aps : amap (list (attr_policy M)).
-  Notation Fa := (filter_attr I p elem aps false).
+  Notation Fa := (filter_attr I p elem aps (has_style_policies I p elem)).
 
-  Hypothesis Hstyle : has_style_policies I p elem = false.
+  Hypothesis Hstyle : style_stable M U R I p elem.
   Hypothesis Hrej : forall k v, relevant elem k = true -> Fa (k, v) = [].
   Hypothesis Hurl : forall k v, url_attr_of elem = Some k -> Fa (k, v) = [(k, v)].
   Hypothesis Hrw : srcRewriter p = None.
@@ -137,10 +137,9 @@ Section Rejected.
   Lemma F_rsettled l : Forall rsettled (flat_map Fa l).
   Proof.
     apply Forall_forall. intros a Ha. apply in_flat_map in Ha as (a0 & _ & Ha).
-    destruct (filter_attr_cases M U R I p elem aps a0 Hstyle) as [E|E]; rewrite E in Ha; [|contradiction].
-    destruct Ha as [<-|[]]. split; [|exact E].
-    destruct (nonrel elem a0) eqn:En; [reflexivity|]. exfalso. unfold nonrel in En. apply negb_false_iff in En.
-    destruct a0 as [k v]. cbn [akey fst] in En. rewrite (Hrej k v En) in E. discriminate.
+    pose proof (filter_attr_kept M U R I p elem aps a0 a Hstyle Ha) as E. split; [|exact E].
+    destruct (nonrel elem a) eqn:En; [reflexivity|]. exfalso. unfold nonrel in En. apply negb_false_iff in En.
+    destruct a as [k v]. cbn [akey fst] in En. rewrite (Hrej k v En) in E. discriminate.
   Qed.
 
   Lemma U_rsettled l : Forall rsettled l -> Forall rurl_settled (flat_map (url_pass_attr I p elem) l).
@@ -177,7 +176,7 @@ Section Rejected.
   Theorem sanitize_attrs_idem_relevant_rejected attrs :
     sanitize_attrs I p elem (sanitize_attrs I p elem attrs aps) aps = sanitize_attrs I p elem attrs aps.
   Proof.
-    pose proof (sanitize_attrs_unfold M U R I p elem aps Hstyle Hnosandbox) as Unf.
+    pose proof (sanitize_attrs_unfold M U R I p elem aps Hnosandbox) as Unf.
     rewrite (Unf attrs). destruct attrs as [|a0 ar]; [reflexivity|].
     remember (flat_map Fa (a0 :: ar)) as c0 eqn:Ec0.
     assert (S0 : Forall rsettled c0) by (subst c0; apply F_rsettled).
@@ -213,9 +212,9 @@ Section RelOnly.
   Variable p : policy M U R.
   Variable elem : bytes.
   Variable aps : amap (list (attr_policy M)).
-  Notation Fa := (filter_attr I p elem aps false).
+  Notation Fa := (filter_attr I p elem aps (has_style_policies I p elem)).
 
-  Hypothesis Hstyle : has_style_policies I p elem = false.
+  Hypothesis Hstyle : style_stable M U R I p elem.
   Hypothesis Hnot_a : beqb elem (B"a") = false.
   Hypothesis Hrel : forall v, Fa (REL, v) = [(REL, v)].
   Hypothesis Hcross : forall v, Fa (CROSSORIGIN, v) = [].
@@ -245,7 +244,7 @@ Section RelOnly.
   Theorem sanitize_attrs_idem_rel_only attrs :
     sanitize_attrs I p elem (sanitize_attrs I p elem attrs aps) aps = sanitize_attrs I p elem attrs aps.
   Proof.
-    pose proof (sanitize_attrs_unfold M U R I p elem aps Hstyle Hnosandbox) as Unf.
+    pose proof (sanitize_attrs_unfold M U R I p elem aps Hnosandbox) as Unf.
     rewrite (Unf attrs). destruct attrs as [|a0 ar]; [reflexivity|].
     remember (flat_map Fa (a0 :: ar)) as c0 eqn:Ec0.
     assert (S0 : Forall kept c0) by (subst c0; apply F_kept; exact Hstyle).
@@ -309,11 +308,12 @@ Section Decide.
     elem_stable2_b p elem aps ||
     ((relevant_rejected_b elem aps || rel_only_b elem aps) && url_unpatterned_b M elem aps && no_sandbox_b M U R p elem).
 
-  Lemma rejected_sound elem aps k v : is_data_attribute k = false -> rejected_b aps k = true -> filter_attr I p elem aps false (k, v) = [].
+  Lemma rejected_sound elem aps hsp k v : is_data_attribute k = false -> key_is (B"style") (k, v) = false -> rejected_b aps k = true ->
+    filter_attr I p elem aps hsp (k, v) = [].
   Proof.
-    intros Hd Hb. unfold rejected_b in Hb. apply andb_true_iff in Hb as [H1 H2]. apply negb_true_iff in H1, H2.
+    intros Hd Hsk Hb. unfold rejected_b in Hb. apply andb_true_iff in Hb as [H1 H2]. apply negb_true_iff in H1, H2.
     unfold has_key in H1, H2. unfold filter_attr, rules_accept. cbn [akey fst].
-    rewrite Hd, andb_false_r, andb_false_r.
+    rewrite Hd, Hsk, andb_false_r. cbn [andb].
     destruct (lookup k aps); [discriminate|]. destruct (lookup k (globalAttrs p)); [discriminate|]. reflexivity.
   Qed.
 
@@ -323,20 +323,20 @@ Section Decide.
       apply andb_true_iff in H as [_ H]; apply beqb_eq in H; auto.
   Qed.
 
-  Lemma relevant_rejected_sound elem aps : relevant_rejected_b elem aps = true ->
-    forall k v, relevant elem k = true -> filter_attr I p elem aps false (k, v) = [].
+  Lemma relevant_rejected_sound elem aps hsp : relevant_rejected_b elem aps = true ->
+    forall k v, relevant elem k = true -> filter_attr I p elem aps hsp (k, v) = [].
   Proof.
     intros Hb k v Hk. unfold relevant_rejected_b in Hb. rewrite forallb_forall in Hb.
     assert (Hin : In k [REL; TARGET; CROSSORIGIN]) by (destruct (relevant_cases elem k Hk) as [->|[->| ->]]; cbn; auto).
     specialize (Hb k Hin). rewrite Hk in Hb. cbn [negb orb] in Hb.
-    apply rejected_sound; [|exact Hb].
+    apply rejected_sound; [| |exact Hb];
     destruct (relevant_cases elem k Hk) as [->|[->| ->]]; vm_compute; reflexivity.
   Qed.
 
   Hypothesis Hrw : srcRewriter p = None.
   Hypothesis Hstable : forall raw u, valid_url I p raw = Some u -> valid_url I p u = Some u.
 
-  Theorem elem_stable3_sound elem aps a : has_style_policies I p elem = false -> elem_stable3_b elem aps = true ->
+  Theorem elem_stable3_sound elem aps a : style_stable M U R I p elem -> elem_stable3_b elem aps = true ->
     clean_attrs I p elem (clean_attrs I p elem a aps) aps = clean_attrs I p elem a aps.
   Proof.
     intros Hs Hb. unfold elem_stable3_b in Hb. apply orb_true_iff in Hb as [Hb|Hb].
@@ -351,8 +351,8 @@ Section Decide.
         * apply (no_sandbox_sound M U R p); exact H3.
       + unfold rel_only_b in H1. apply andb_true_iff in H1 as [H1 Hc]. apply andb_true_iff in H1 as [Ha Hr]. apply negb_true_iff in Ha.
         apply sanitize_attrs_idem_rel_only; auto.
-        * intros v. apply (accepted_sound M U R I p); assumption.
-        * intros v. apply rejected_sound; [vm_compute; reflexivity | exact Hc].
+        * intros v. apply (accepted_sound M U R I p); [reflexivity | assumption].
+        * intros v. apply rejected_sound; [vm_compute; reflexivity | reflexivity | exact Hc].
         * apply (url_unpatterned_sound M U R I p); assumption.
         * apply (no_sandbox_sound M U R p); exact H3.
   Qed.
